@@ -34,7 +34,9 @@ RULE_REAL = (
     "run one at a time through CompassApp::run on ONE application instance, one (often the first) of them with its own "
     "weights / vehicle_rates / cost_aggregation. Boundary families: two-route network whose distance- and time-optimal "
     "routes differ with every override direction, per-edge surcharges on the first / last edge of the shorter route "
-    "(forward and reverse), a 'highway' network on which an estimate at the mean table speed is inadmissible, the same "
+    "(forward and reverse) incl. surcharge tables on a weighted feature that has no vehicle rate (absent, Zero, or left out "
+    "by the query's own vehicle_rates), a network that straddles the 180th meridian (best route through a vertex on the "
+    "other side; a tenth of the random networks straddle it too), a 'highway' network on which an estimate at the mean table speed is inadmissible, the same "
     "with table rows above the soft maximum in each speed unit (the estimate must use the table's own maximum), Combined "
     "chains whose last (or first) mapping alone would flip the route, Dijkstra on a non-metric network, and a chain of "
     "20-60 short edges against one direct edge 0.05-0.5 % longer for EVERY (model distance unit, state feature unit) "
@@ -49,7 +51,8 @@ RULE_REAL = (
     "implementation's weighted estimate of every vertex is at most the remaining cost to the target (admissibility "
     "measured, when A* is inside the hypothesis); the engine's max_speed equals the maximum of its table; every response "
     "of a sequence (path, cost, cost-model echo) equals the response of the same query run alone on a fresh application "
-    "instance; implementation haversine within 0.5 % of the independent value on every edge. "
+    "instance; implementation haversine within 0.5 % of the independent value on every edge and every (vertex, target) "
+    "pair; whether A* is inside the hypothesis is decided from the INDEPENDENT great-circle distance alone. "
     "Non-trivial = A* inside the hypothesis and a route of >= 2 edges; distinct by case")
 
 
@@ -148,7 +151,7 @@ def run(chk):
     chk.proofs(extra_targets=["Model/ObjectiveRun.vo", "Proofs/OptimalCheck.vo"])
     binp = vf.build_harness("c02")
     quick = chk.tier == "quick"
-    streams = [("opt", 420 if quick else 15000), ("real", 260 if quick else 6000)]
+    streams = [("opt", 420 if quick else 15000), ("real", 290 if quick else 6000)]
     if chk.replay:
         # a replay file names its stream in the case description
         try:
